@@ -1139,6 +1139,11 @@ def values_equal(E, l, r):
     """l == r  -> bool | SBool"""
     if l is r and not isinstance(l, (SReal, float)):
         return True
+    if isinstance(l, Extern) and isinstance(r, Extern):
+        if l.name == r.name:
+            return True
+        # two unmodelled external objects reached under different names may be one object (inspect._empty is Parameter.empty)
+        raise Unsupported('equality of the unmodelled external objects %s and %s' % (l.name, r.name))
     if l is None or r is None:
         if isinstance(l, (SObj,)) or isinstance(r, (SObj,)):
             o = l if isinstance(l, SObj) else r
@@ -1282,6 +1287,10 @@ def compare(E, op, l, r):
 def _identical(l, r):
     if l is r:
         return True
+    if isinstance(l, Extern) and isinstance(r, Extern):
+        if l.name == r.name:
+            return True
+        raise Unsupported('identity of the unmodelled external objects %s and %s' % (l.name, r.name))
     if l is None or r is None:
         return False
     if isinstance(l, bool) and isinstance(r, bool):
